@@ -741,6 +741,9 @@ func c06ShapeAndPushCases(yield func(c06Case), thorough bool) {
 								op = "CHECKMULTISIG"
 							}
 							yield(c06Case{scriptCase: scriptCase{Unlock: unlockOf(sig), Lock: l.b, Flags: f, Shape: shape}, Op: op, Sig: mut, Key: "compressed", HT: ht, Extra: "|" + l.name})
+							if vi == 0 && (l.name == "CHECKSIG" || l.name == "P2PKH" || l.name == "1of1 CHECKMULTISIG") {
+								yield(c06Case{scriptCase: scriptCase{Unlock: unlockOf(sig), Lock: l.b, Flags: f, Shape: shape, PreHashed: true}, Op: op, Sig: mut, Key: "compressed", HT: ht, Extra: "|" + l.name + "|tx-object-hashed-before-edits"})
+							}
 						}
 					}
 				}
@@ -751,7 +754,7 @@ func c06ShapeAndPushCases(yield func(c06Case), thorough bool) {
 
 func init() {
 	p := register(&Prop{ID: "C06", Level: "exploration",
-		Rule: "exhaustive product with real ECDSA signatures, every case executed in lockstep against the reference model (CHECKSIG/CHECKMULTISIG written after the node's interpreter, certified on the signature vectors of script_tests.json; digests certified on the sighash vectors): CHECKSIG family: 8 locking-script forms (CHECKSIG, NOT, CHECKSIGVERIFY, OP_CODESEPARATOR before the key / before the opcode / unexecuted / later in the script, P2PKH) x 5 key encodings (compressed, uncompressed, hybrid, truncated, empty) x 17 hash types (12 standard, 5 undefined) x 9 signature kinds (valid, over another tx, by another key, over the other digest algorithm, empty, hash-type byte only, high-S, DER-padded, wrong DER length) x ALL 64 subsets of {STRICTENC, DERSIG, LOW_S, NULLDUMMY, NULLFAIL, SIGHASH_FORKID} x both eras x tx shapes (1 in/1 out, no outputs; thorough: 2 inputs); signature-in-script (exact push and substring); valid signatures with a CHOSEN s (n/2-1, n/2, n/2+1, 2^255-1, 2^255; the public key is recovered from the signature) against the LOW_S rule; signature checks in scripts that continue after a top-level OP_RETURN with 0..4 raw bytes (script code with a data tail), and signature checks reached after an UNLOCKING script that ends through a top-level OP_RETURN; for CHECKSIG and P2PKH also with the transaction's checked input already recording ANOTHER spent output (other value and script, as left by FromUTXOs or an earlier Execute): a valid signature, and one made for the recorded value instead of the spent one. CHECKMULTISIG family: every m-of-n with 0<=m<=n<=3, every m-tuple over the slot alphabet {valid by key j for every j, empty, type-only, other tx, high-S, a single byte that occurs inside a public key} (hence every order), dummy {empty, 01}, key mutations, 3 opcode forms, uniform and mixed per-signature hash types, 2/5 hash types, 64 flag subsets x both eras; key and signature counts of every m-of-n with n<=2 in ten number forms (plus 2^31, 2^32, 2^63, 2^64, 2^128, minus 2^64, negative, padded) x 3 opcode forms x 4 flag sets x both eras; two-input transactions (checked input first / last) and locking scripts with non-minimal pushes in the script code (PUSHDATA1/2/4 of 3 and 80 bytes, before and after the check, the key itself through PUSHDATA1; CHECKSIG, P2PKH and 1-of-1 CHECKMULTISIG; OP_CODESEPARATOR before / inside / after a CHECKMULTISIG, in taken and untaken branches, and as push data) x all 17 hash types x 4 flag sets x both eras, with a valid signature and signatures made for a transaction differing in the other input's / the checked input's sequence number. Oracle: verdict and every stack snapshot equal the reference. distinct_nontrivial = distinct (script pair, flags) executions",
+		Rule: "exhaustive product with real ECDSA signatures, every case executed in lockstep against the reference model (CHECKSIG/CHECKMULTISIG written after the node's interpreter, certified on the signature vectors of script_tests.json; digests certified on the sighash vectors): CHECKSIG family: 8 locking-script forms (CHECKSIG, NOT, CHECKSIGVERIFY, OP_CODESEPARATOR before the key / before the opcode / unexecuted / later in the script, P2PKH) x 5 key encodings (compressed, uncompressed, hybrid, truncated, empty) x 17 hash types (12 standard, 5 undefined) x 9 signature kinds (valid, over another tx, by another key, over the other digest algorithm, empty, hash-type byte only, high-S, DER-padded, wrong DER length) x ALL 64 subsets of {STRICTENC, DERSIG, LOW_S, NULLDUMMY, NULLFAIL, SIGHASH_FORKID} x both eras x tx shapes (1 in/1 out, no outputs; thorough: 2 inputs); signature-in-script (exact push and substring); valid signatures with a CHOSEN s (n/2-1, n/2, n/2+1, 2^255-1, 2^255; the public key is recovered from the signature) against the LOW_S rule; signature checks in scripts that continue after a top-level OP_RETURN with 0..4 raw bytes (script code with a data tail), and signature checks reached after an UNLOCKING script that ends through a top-level OP_RETURN; for CHECKSIG and P2PKH also with the transaction's checked input already recording ANOTHER spent output (other value and script, as left by FromUTXOs or an earlier Execute): a valid signature, and one made for the recorded value instead of the spent one. CHECKMULTISIG family: every m-of-n with 0<=m<=n<=3, every m-tuple over the slot alphabet {valid by key j for every j, empty, type-only, other tx, high-S, a single byte that occurs inside a public key} (hence every order), dummy {empty, 01}, key mutations, 3 opcode forms, uniform and mixed per-signature hash types, 2/5 hash types, 64 flag subsets x both eras; key and signature counts of every m-of-n with n<=2 in ten number forms (plus 2^31, 2^32, 2^63, 2^64, 2^128, minus 2^64, negative, padded) x 3 opcode forms x 4 flag sets x both eras; two-input transactions (checked input first / last) and locking scripts with non-minimal pushes in the script code (PUSHDATA1/2/4 of 3 and 80 bytes, before and after the check, the key itself through PUSHDATA1; CHECKSIG, P2PKH and 1-of-1 CHECKMULTISIG; OP_CODESEPARATOR before / inside / after a CHECKMULTISIG, in taken and untaken branches, and as push data) x all 17 hash types x 4 flag sets x both eras, with a valid signature (also on a transaction OBJECT that went through signature hashing before being edited in place into the transaction of the case) and signatures made for a transaction differing in the other input's / the checked input's sequence number. Oracle: verdict and every stack snapshot equal the reference. distinct_nontrivial = distinct (script pair, flags) executions",
 	})
 	sp := NewSpace(p, "sigops", c06Check)
 	p.Run = func(r *rep.Run, thorough bool) {
@@ -767,7 +770,7 @@ func init() {
 		chk := func(c c06Case) []rep.Finding {
 			fs, lrOK := c06Run(c)
 			if len(fs) == 0 {
-				r.Distinct([]byte(c.Unlock), []byte(c.Lock), c.Flags, c.Shape, c.PrevStale)
+				r.Distinct([]byte(c.Unlock), []byte(c.Lock), c.Flags, c.Shape, c.PrevStale, c.PreHashed)
 			}
 			if lrOK && len(fs) == 0 {
 				mu.Lock()
